@@ -258,14 +258,27 @@ def _documents(doc_i, kind, enc_i):
 
 # ---------------------------------------------------------------- web processor: every per-URL error kind stays per-URL
 def _web_processor_faults(e0, e1, stage):
-    kinds = ['neterr', 'proto', 'ssl', 'refused', 'dns', (500, None), (200, None), (301, 'http://['), (301, None), (302, 'http://a.example/\x00')]
+    """stage 0: the first two requests of a visit answer a0, a1.  stage 1: robots.txt checking is on - the first two requests belong
+    to the robots.txt fetch (a cross-origin redirect of robots.txt included), later ones answer 200."""
+    kinds = ['neterr', 'proto', 'ssl', 'refused', 'dns', (500, None), (200, None), (301, 'http://['), (301, None), (302, 'http://a.example/\x00'),
+             (301, 'https://www.other.example/robots.txt'), (404, None), (301, 'http://[::1/next'), (303, '//[fe80::1/x')]
     a0, a1 = pick(kinds, e0), pick(kinds, e1)
 
     def answer(k, request):
-        return a0 if k == 0 else a1
+        return a0 if k == 0 else (a1 if k == 1 else (200, None))
     with nosym():
         client = stubs.StubHTTPClient(answer=answer)
-        env = stubs.build_web(client, filters=[F.SchemeFilter()])
+        checker = None
+        if stage == 1:
+            import harness.c20 as c20
+            from wpull.protocol.http.robots import RobotsTxtChecker
+            from wpull.protocol.http.web import WebClient
+            c20._install_tempfiles()
+            client.body_for = lambda resp: b'User-agent: *\nDisallow: /private\n'
+            checker = RobotsTxtChecker(web_client=WebClient(http_client=client))
+        env = stubs.build_web(client, filters=[F.SchemeFilter()], robots_checker=checker)
+        if stage == 1:
+            c20._install_tempfiles()              # build_web points new_temp_file at BytesIO; the robots fetch needs named files
         env.table.add('http://a.example/')
         rec = env.table.check_out(Status.todo)
         item = ItemSession(env.app, rec)
@@ -335,11 +348,13 @@ HARNESSES = [
              'wpull/scraper/base.py:DemuxDocumentScraper.scrape_info', 'wpull/document/util.py:detect_response_encoding'],
       doc='18 hostile robots.txt / CSS / JavaScript documents x 12 declared charsets (incl. utf-16, an unknown codec and non-text codecs such as hex / zlib / base64) through robots.txt '
           'loading, CSSScraper, JavaScriptScraper and the demultiplexing scraper: success or a per-URL error kind'),
-    H('web_processor_faults', '_web_processor_faults', 'e0: int, e1: int, stage: int', pre=['0 <= e0 <= 9 and 0 <= e1 <= 9 and stage == 0'],
-      timeout={'quick': 250, 'thorough': 600}, samples=[(0, 0, 0), (7, 6, 0), (9, 1, 0)], need=['processed'],
+    H('web_processor_faults', '_web_processor_faults', 'e0: int, e1: int, stage: int', pre=['0 <= e0 <= 13 and 0 <= e1 <= 13'],
+      parts=[{'tag': 'plain', 'fix': {'stage': '0'}}] + [{'tag': 'robots_%d' % lo, 'fix': {'stage': '1'}, 'pre': ['%d <= e0 <= %d' % (lo, lo + 1)]} for lo in range(0, 14, 2)],
+      timeout={'quick': 250, 'thorough': 600}, samples=[(0, 0, 0), (7, 6, 0), (9, 1, 0), (10, 6, 1), (11, 6, 1)], need=['processed'],
       funcs=['wpull/processor/web.py:WebProcessorSession.process', 'wpull/processor/web.py:WebProcessorSession._fetch_one', 'wpull/protocol/http/web.py:WebSession._process_redirect'],
-      doc='every pair of outcomes (5 error kinds, 5xx, 200, redirect to an unparsable / missing / control-character Location) of the first '
-          'two requests of a visit: WebProcessorSession.process returns normally with the item in a final or error state'),
+      doc='every pair of outcomes (5 error kinds, 5xx, 404, 200, redirect to an unparsable / missing / control-character / unterminated-IPv6 / '
+          'cross-origin Location) of the first two requests of a visit - without and with robots.txt checking (the pair then hits the '
+          'robots.txt fetch): WebProcessorSession.process returns normally with the item in a final or error state'),
 ]
 for _h in HARNESSES:
     if isinstance(_h.parts, dict):
